@@ -107,6 +107,31 @@ CLAIMED['C13'] = dict(
          'correspondence/structural comparison on implementation outputs, not proved.',
     technique='Lean 4 proof (mutual structural induction over the AST with an environment invariant) + correspondence + spec evaluation')
 
+CLAIMED['C08'] = dict(
+    text='Lean 4 model of every rule function of simplify (constant folding with Python int/float semantics over exact rationals, flip by '
+         'commutativity / INVERSE_OPERATORS, re-association, iff/implies expansion, and/or unit-idempotence-complement-deduplication, comparison '
+         'folding, arithmetic identities, built-in function folding) tied to the code by output correspondence (0 disagreements on ~4.6k terms per '
+         'run, modulo Python set order). Proved so far: the table obligations the flip and re-association steps need (commutative/associative '
+         'flags are exactly the sound ones — the obligation that the removed ** = != flags violated; inverse table), soundness of the '
+         'obviously-different test (obviouslyDifferent_bool) and of the head rules of _simplify_conjunction/_simplify_disjunction. The full '
+         'statement SimplifySound is stated in Props/C08.lean and not yet proved; until then the unbounded claim rests on these lemmas plus the '
+         'Lean evaluator judging every implementation output on the valuation grid (which found the seven defects now fixed in /repo).',
+    design_ref='DESIGN.md §6 C08',
+    note='PARTIAL: rule lemmas and table obligations are theorems; the induction over the whole term (SimplifySound) is open. Exact rational '
+         'arithmetic; NaN and arithmetic on infinities are errors of the original and constrain nothing; math functions are uninterpreted.',
+    technique='Lean 4 proof of rule lemmas and table obligations (partial) + full model correspondence + spec evaluation of every output')
+CLAIMED['C14'] = dict(
+    text='Lean 4 theorems on result kinds (simplifyPred_kind: predicate in, predicate out, vacuous exactly for literal conditions; '
+         'canonical_nonempty; vacuous-predicate cases of refactor) over models in which every assert / unchecked index of rewrite.py is an '
+         'explicit internal-error outcome; totality itself (no internal outcome, fuel never exhausted) is tied by exception-class correspondence '
+         'on every built-in function x admissible argument shape x {expression, predicate, nested} and random inputs, with allowed exceptions '
+         'judged by the statement (simplify only on inputs undefined under every valuation, split_and ValueError, TypeError of replacements on '
+         'predicates). One known finding (canonical_form raising HplSanityError when a split unbinds an alias).',
+    design_ref='DESIGN.md §6 C14',
+    note='PARTIAL: totality (absence of internal outcomes for every well-typed input) is not yet a theorem; it is established by '
+         'correspondence and by the four crash defects found and fixed (AssertionError, UnboundLocalError, IndexError, TypeError of re-association).',
+    technique='Lean 4 result-kind theorems (partial) + exception-class correspondence over the enumerated function/argument-shape table')
+
 NOT_YET = {}
 
 
